@@ -533,8 +533,13 @@ ASYM_CONSTRUCTORS = ["list", "set", "tuple", "dict", "union", "optional", "annot
 
 
 # ------------------------------------------------------------------ enumerated universes (all ordered pairs)
+def pick_small():
+    return [gen(list, INT), gen(list, BOOL), array(INT), array(BOOL), optional(INT), optional(BOOL),
+            annot(BOOL, 7), gen(tuple, INT, ELL)]
+
+
 def universe(level):
-    """Deterministic list of distinct normalised terms: level 1 = depth <= 1 (~120), level 2 = depth <= 2 (~450)."""
+    """Deterministic list of distinct normalised terms: level 1 = depth <= 1 (114), level 2 = depth <= 2 (~450)."""
     atoms = [INT, BOOL, FLOAT, STR, BYTES, NONE, ANY]
     tvs = [tv(n) for n in "TSNL"]
     small = [INT, BOOL, STR, ANY]
@@ -550,8 +555,11 @@ def universe(level):
     out += [union(u5[i], u5[j]) for i in range(5) for j in range(i + 1, 5)]
     out += [annot(INT, 11), annot(BOOL, 7, 11), gen(tuple, INT, BOOL, STR)]
     if level >= 2:
-        d1t = [f(x) for f in unary for x in tiny]
+        d1t = [f(x) for f in unary for x in tiny + [STR]]
         out += [f(x) for f in unary for x in d1t]
+        out += [gen(dict, x, y) for x in [gen(tuple, INT), gen(tuple, BOOL), annot(INT, 7)] for y in pick_small()]
+        out += [gen(tuple, x, y) for x in pick_small() for y in pick_small()]
+        out += [union(x, y) for x in pick_small()[:4] for y in pick_small()[4:]]
         pick = [gen(list, INT), gen(list, BOOL), annot(BOOL, 7), annot(INT, 7), array(INT), array(BOOL),
                 optional(BOOL), gen(tuple, INT, ELL), gen(tuple, BOOL)]
         out += [gen(tuple, x, y) for x in pick[:6] for y in [INT, BOOL]]
